@@ -145,6 +145,22 @@ def run(case):
         if da.shape != (T, 1, 3) or not np.all(np.isfinite(db)) or np.abs(da - db).max() > TOL:
             raise Violation('floating-equals-complementary-fixed', f'drift() differs between {kw} and {alt}')
 
+    # the same species names in both roles on the same object: drift(fixed_species=S) is the mean step of S, drift(floating_species=S)
+    # the mean step of everything else (asked in a case-dependent order, so neither answer may be remembered for the other)
+    S = list(ref_syms)[:1] if case['ref_kind'] == 'str' else list(ref_syms)
+    in_S = [i for i, x in enumerate(symbols) if x in S]
+    others = [i for i in range(N) if i not in in_S]
+    if others and in_S and mode != 'none':
+        m_fixed = np.concatenate([np.zeros((1, 3)), steps[:, in_S].mean(axis=1)], axis=0)
+        m_float = np.concatenate([np.zeros((1, 3)), steps[:, others].mean(axis=1)], axis=0)
+        seq = [('fixed_species', m_fixed), ('floating_species', m_float)]
+        if case.get('ref_count', 1) % 2:
+            seq.reverse()
+        for role, want_d in seq + seq[:1]:
+            got_d = np.array(gcall(t0.drift, **{role: _coll(case['ref_kind'], S)}))
+            if got_d.shape != (T, 1, 3) or not np.all(np.isfinite(got_d)) or np.abs(got_d[:, 0] - want_d).max() > TOL:
+                raise Violation('drift-is-mean-step-of-the-reference', f'drift({role}={S}) on an object also asked for the other role: deviates by {np.abs(got_d[:, 0] - want_d).max() if got_d.shape == (T, 1, 3) else got_d.shape} from the mean step of the {"named" if role == "fixed_species" else "other"} species')
+
     labels = [case['lattice']['family'], 'mode-' + mode, 'kind-' + case['ref_kind'], 'species-as-' + case['species_kind']] + (['slow-motion'] if case.get('scale', 1.0) < 1e-6 else []) + (['derived-by-' + case['derive']['how']] if case.get('derive') else [])
     nz = bool(np.abs(rigid).max() > 0)
     return {'nontrivial': len(ref_idx) >= 2 and len(kinds) >= 2 and nz, 'labels': labels}
